@@ -596,6 +596,11 @@ def judge_serial(res, cfg, w, obs):
     case = dict(cfg, t="serial")
     maptype = 3 if cfg.get("with_map") else "nomap"
     fitems = list(w.effective)
+    if w.loop_exceptions and (w.gateway.observe or len([i for i in fitems if i in [tuple(x) for x in w.items]]) < len(w.items)):
+        # the receiver raised while taking the gateway's bytes: the history could not be delivered - the library's doing
+        add_violation(res, f"C20:{drv}:loop-exception", f"{drv} history {cfg['kinds'][:6]}{'...' if len(cfg['kinds']) > 6 else ''} ({len(w.items)} items): the receiver raised after "
+                      f"{len(fitems)} items: {w.loop_exceptions[:2]}", case)
+        return ("exception",)
     if w.gateway.observe or len([i for i in fitems if i in [tuple(x) for x in w.items]]) < len(w.items):
         raise RuntimeError(f"HARNESS: history {cfg['kinds']} was not delivered completely ({len(fitems)} of {len(w.items)} items; trace {w.trace[-12:]})")
     exp_all, _ = ref_buswatch(fitems, maptype, pairing=False)
@@ -864,6 +869,10 @@ def shards(tier):
     for drv in ("luba", "sci"):
         for first in range(len(SUB_OPS)):
             out.append(("subs", drv, first, 6 if tier == "quick" else 7))
+    # a long monitoring session without own sends: several hundred answered queries of another master, then plain commands
+    for drv in ("luba", "sci"):
+        out.append(("serial", drv, [("query+answer",) * 300 + ("plain", "edt+ext", "plain")], 0, 0, False))
+    out.append(("trid", [("query+answer",) * 120 + ("plain", "edt+ext")], 0, 0, None))
     out.append(("dual", 2 if tier == "quick" else 3))
     out.append(("hasseb",))
     return out
